@@ -29,6 +29,12 @@ var sortStrings = []string{"", "a", "b", "ab", "abc", "B", "é", "e", "z", "aa",
 
 func GenC17(t *rapid.T) *C17Case {
 	n := []int{1, 2, 3, 4, 5, 6, 7, 8, 9, 12, 13, 16, 17, 25, 32, 33, 40, 64, 65, 100, 129, 11, 12, 13, 256, 257}[drawIdx(t, 26, "n")]
+	// occasionally thousands of elements drawn from a small range, so that a value occurs many times in
+	// every part of the list (divide-and-merge or parallel sorting above a size threshold)
+	huge := oneIn(t, 150, "huge")
+	if huge {
+		n = []int{1023, 1024, 2047, 2048, 2049, 4096, 5000}[drawIdx(t, 7, "hugen")]
+	}
 	c := &C17Case{Twice: drawBool(t, "twice"), Route: drawInt(t, 0, numListRoutes-1, "route")}
 	if drawBool(t, "seq") {
 		for i, n := 0, drawInt(t, 1, 5, "nops"); i < n; i++ {
@@ -42,7 +48,7 @@ func GenC17(t *rapid.T) *C17Case {
 		for i := 0; i < n; i++ {
 			if shape == 3 {
 				c.Strs = append(c.Strs, sortStrings[drawInt(t, 0, 3, "s")])
-			} else if drawInt(t, 0, 2, "pool") > 0 {
+			} else if huge || drawInt(t, 0, 2, "pool") > 0 {
 				c.Strs = append(c.Strs, sortStrings[drawIdx(t, len(sortStrings), "s")])
 			} else {
 				c.Strs = append(c.Strs, GenString(t, 5))
@@ -61,6 +67,8 @@ func GenC17(t *rapid.T) *C17Case {
 		for i := 0; i < n; i++ {
 			if shape == 3 {
 				c.Ints = append(c.Ints, int64(drawInt(t, -1, 1, "i")))
+			} else if huge {
+				c.Ints = append(c.Ints, int64(drawInt(t, -300, 300, "i")))
 			} else {
 				v, _ := GenInt(t)
 				c.Ints = append(c.Ints, int64(v))
@@ -76,6 +84,8 @@ func GenC17(t *rapid.T) *C17Case {
 			switch {
 			case shape == 3:
 				f = []float64{0, math.Copysign(0, -1), 1, -1, 0.5}[drawInt(t, 0, 4, "f")]
+			case huge:
+				f = float64(drawInt(t, -200, 200, "f")) / 4
 			case oneIn(t, 6, "inf"):
 				f = []float64{math.Inf(1), math.Inf(-1), math.MaxFloat64, -math.MaxFloat64, 5e-324, -5e-324}[drawIdx(t, 6, "x")]
 			default:
@@ -92,7 +102,7 @@ func GenC17(t *rapid.T) *C17Case {
 		c.Mode = "reverse"
 		cfg := TreeCfg{MaxDepth: 2, MaxWidth: 3, MaxStr: 4}
 		v := V{K: KList}
-		m := n
+		m := min(n, 300)
 		if oneIn(t, 10, "empty") {
 			m = 0
 		}
@@ -105,7 +115,7 @@ func GenC17(t *rapid.T) *C17Case {
 		cfg := TreeCfg{MaxDepth: 2, MaxWidth: 3, MaxStr: 4}
 		first := []V{VNil(), VBool(true), VBool(false), VList(), VObj(), VList(VInt(1)), VObj(Pair{"a", VStr("b")})}[drawIdx(t, 7, "first")]
 		v := V{K: KList, L: []V{first}}
-		for i := 1; i < n; i++ {
+		for i := 1; i < min(n, 300); i++ {
 			v.L = append(v.L, GenValue(t, cfg, 1))
 		}
 		c.Tree = &v
@@ -400,6 +410,6 @@ func fmtInt(i int64) string {
 
 func init() {
 	Register("C17",
-		"homogeneous lists of strings / ints / non-NaN floats of length 1-40 (occasionally 64-129), built through drawn construction routes (shared element wrappers after NewListOf/Concat/SubList, typed-slice origin), optionally followed by a drawn sequence of further Sort/Reverse calls checked against a model, (1, even, odd; random, already sorted, reverse sorted, duplicate-heavy; extremes MinInt, MaxInt, +-Inf, +-0, +-MaxFloat64, subnormals, empty string, non-ASCII, prefixes of each other), lists of any kinds for Reverse, and lists whose first element is nil/bool/list/object for the panic clause. Oracle: Sort returns the same list, adjacent elements non-decreasing (strings bytewise), the multiset is unchanged (floats by bit pattern), a second Sort changes nothing; Reverse puts element i (identity for containers) at n-1-i and twice restores content and identities; Sort with a bad first element panics and leaves the list unchanged. Non-trivial = sort of length >= 3 not already sorted with a duplicate or an extreme value, reverse of length >= 3, or the panic clause. Distinct = distinct FNV-64a hash of the case JSON.",
+		"homogeneous lists of strings / ints / non-NaN floats of length 1-40 (occasionally 64-257; in one case of 150 1023-5000 elements from a small range, so that every value occurs many times in every part of the list), built through drawn construction routes (shared element wrappers after NewListOf/Concat/SubList, typed-slice origin), optionally followed by a drawn sequence of further Sort/Reverse calls checked against a model, (1, even, odd; random, already sorted, reverse sorted, duplicate-heavy; extremes MinInt, MaxInt, +-Inf, +-0, +-MaxFloat64, subnormals, empty string, non-ASCII, prefixes of each other), lists of any kinds for Reverse, and lists whose first element is nil/bool/list/object for the panic clause. Oracle: Sort returns the same list, adjacent elements non-decreasing (strings bytewise), the multiset is unchanged (floats by bit pattern), a second Sort changes nothing; Reverse puts element i (identity for containers) at n-1-i and twice restores content and identities; Sort with a bad first element panics and leaves the list unchanged. Non-trivial = sort of length >= 3 not already sorted with a duplicate or an extreme value, reverse of length >= 3, or the panic clause. Distinct = distinct FNV-64a hash of the case JSON.",
 		GenC17, CheckC17)
 }
